@@ -276,7 +276,13 @@ def execute(h: Dict[str, Any]) -> Dict[str, Any]:
                     pth = out / nm
                     pth.parent.mkdir(parents=True, exist_ok=True)
                     good = ref_owned[nm]
-                    pth.write_bytes(pr.choice([b"", good[: len(good) // 2], b'{"stale": true}', good + b"\n// trailing junk\n", good.replace(b"a", b"b", 1)]))
+                    pth.write_bytes(pr.choice([
+                        b"", good[: len(good) // 2], b'{"stale": true}', good + b"\n// trailing junk\n", good.replace(b"a", b"b", 1),
+                        # the right text in another encoding of the same characters (what a checkout with
+                        # autocrlf, an editor or a BOM-writing tool leaves behind)
+                        good.replace(b"\n", b"\r\n"), good.replace(b"\n", b"\r"), b"\xef\xbb\xbf" + good, good + b"\n", good.rstrip(b"\n"),
+                        good.replace(b"    ", b"\t"), good.decode("utf-8", "replace").encode("utf-16"),
+                    ]))
                 probes["stale_realname_placed"] += 1
                 evlog.append(["PLACE", op[1]])
             elif op[0] == "PLACE":
@@ -570,7 +576,7 @@ def main(argv: List[str]) -> int:
                 det_checked += 1
                 if r.get("digest") != by_seed[sample[i]].get("digest"):
                     det_mismatch += 1
-                    rep.harness_error(f"determinism: run_seed={sample[i]} digest {by_seed[sample[i]].get('digest')} then {r.get('digest')}")
+                    rep.harness_error(f"determinism: run_seed={sample[i]} digest {by_seed[sample[i]].get('digest')} then {r.get('digest')}", soft=True)
         except core.HarnessError as e:
             rep.harness_error(str(e))
 
@@ -596,7 +602,7 @@ def main(argv: List[str]) -> int:
 
             p = subprocess.run([sys.executable, "-m", "sim.c16", "--replay", str(path)], cwd=str(core.VERIF), capture_output=True, text=True, timeout=1800)
             if p.returncode != core.EXIT_VIOLATION:
-                rep.harness_error(f"replay file {path} did not reproduce in a fresh process: rc={p.returncode} {p.stdout[-300:]}")
+                rep.harness_error(f"replay file {path} did not reproduce in a fresh process: rc={p.returncode} {p.stdout[-300:]}", soft=True)
 
     wall = time.monotonic() - t0
     judged = [r for r in ok if not r.get("skipped")]
